@@ -2,7 +2,8 @@
     (definitions only) *)
 
 From Coq Require Import String ZArith List Bool.
-From Nexus Require Import Transport.GoArith Transport.RawOps Transport.RawFrame gen.GenC15.
+From Nexus Require Import Transport.GoArith Transport.RawOps Transport.RawFrame
+  Transport.PeerDiscipline gen.GenC15.
 Import ListNotations.
 Open Scope Z_scope.
 
@@ -21,3 +22,17 @@ Definition gen_params : params := {|
 (** the PING case of the generated frame switch *)
 Definition gen_ping_ops : list rop :=
   match assocZ 1 (GenC15.frame_cases 0) with Some o => o | None => GenC15.frame_default 0 end.
+
+(** ** the two writing goroutines *)
+
+Definition gen_mutex : String.string :=
+  match first_lock GenC15.send_ops with Some m => m | None => ""%string end.
+
+(** programs of the two goroutines for given message bodies and given PINGs
+    (header, payload) *)
+Definition writer_frames (P : params) (m : String.string) (bodies : list (list Z)) : list (list act) :=
+  map (frame_acts_w P m) bodies.
+
+Definition reader_frames (pops : list rop) (m : String.string) (pings : list (list Z * list Z)) : list (list act) :=
+  map (fun hp => frame_acts_r pops m (fst hp) (snd hp)) pings.
+
